@@ -58,6 +58,15 @@ class Evaluator:
             return all(vals) if isinstance(e.op, ast.And) else any(vals)
         if isinstance(e, ast.IfExp):
             return self.truth(e.body) if self.truth(e.test) else self.truth(e.orelse)
+        if isinstance(e, ast.Compare) and len(e.ops) == 1 and isinstance(e.ops[0], (ast.Eq, ast.NotEq)):
+            l, r = e.left, e.comparators[0]
+            # distribute a conditional operand: (a if c else b) == r  ==  (a == r) if c else (b == r)
+            for side, other, left_side in ((l, r, True), (r, l, False)):
+                if isinstance(side, ast.IfExp):
+                    mk = lambda x: ast.Compare(left=x if left_side else other, ops=e.ops, comparators=[other if left_side else x])
+                    return self.truth(mk(side.body)) if self.truth(side.test) else self.truth(mk(side.orelse))
+            if flow.dump(l) == flow.dump(r) and flow.dump(l) not in self.terms:
+                return isinstance(e.ops[0], ast.Eq)
         if isinstance(e, ast.Compare):
             try:
                 left = self.num(e.left)
